@@ -135,6 +135,10 @@ def gen_scenario(rng):
         cfgopts.append("noeventfd")
     if tr is None and rng.random() < 0.1:
         cfgopts.append("notimerfd")
+    if tr and "epoll-timerfd epoll" in tr and "noeventfd" not in cfgopts and rng.random() < 0.2:
+        # descriptor exhaustion at the k-th eventfd the library asks for (raw-descriptor transport: the owner's kick): that registration
+        # reports failure and must leave the owner's bookkeeping as it was — later registrations and posts work as if it had not happened
+        cfgopts.append(f"eventfd-emfile={rng.choice([1, 1, 2, 3])}")
     hdr = ["cfg seed=@SEED@ stay=%d waitlimit=120 cblimit=400 %s" % (rng.choice([30, 45, 55, 70]), " ".join(cfgopts))]
     if tr:
         hdr.append("exclude " + tr)
